@@ -3,5 +3,5 @@ CONSTANT Configs <- StopQuick
 SPECIFICATION MCSpec
 VIEW MCView
 CONSTRAINT ExecBound
-INVARIANTS Lead_C03_NoGhost
+INVARIANTS TypeOK C03_BoundInv C03_NoGhost
 CHECK_DEADLOCK FALSE
